@@ -372,7 +372,11 @@ def verify_unit(unit, tier="quick", do_canary=True):
             per_rec[key] = per_rec.get(key, 0) + s.text.count("\n")
     path = os.path.join(WORK, unit + ".rs")
     open(path, "w", encoding="utf-8").write(g)
-    obs, assumed, fns = enumerate_obligations(g)
+    try:
+        obs, assumed, fns = enumerate_obligations(g)
+    except ExtractError as e:
+        out.update(status="undecided", reason=f"generated file is not well bracketed (an anchor now sits inside a block): {e}", gen_path=path)
+        return out
     out.update(meta=meta, obligations=obs, assumed=assumed, trusted_scan=scan_trusted(g), gen_path=path,
                functions=[f.name for f in fns if not f.trusted and f.mode != "spec" and f.name != "main"])
     if not obs:
